@@ -506,7 +506,44 @@ func (o *C08) usableSets(w *World) {
 	}
 }
 
-func (o *C08) AfterBegin(w *World) { o.seqCheck(w); o.usableSets(w) }
+// pendingSetsKept: the hub may forget a published signer set only when the external chain can no longer execute
+// it (the contract is at that nonce or beyond; the multisig has used its sequence number). A set withdrawn
+// earlier takes its confirmations with it - and on Minter its sequence number, behind which every later
+// outgoing transaction waits for ever.
+func (o *C08) pendingSetsKept(w *World) {
+	if w.Tainted || w.Halted != "" {
+		return
+	}
+	t := w.T()
+	for _, ch := range Chains {
+		var nonces []uint64
+		for n := range t.Prev.SSets[ch] {
+			if _, still := t.Cur.SSets[ch][n]; !still {
+				nonces = append(nonces, n)
+			}
+		}
+		sort.Slice(nonces, func(i, j int) bool { return nonces[i] < nonces[j] })
+		for _, n := range nonces {
+			s := t.Prev.SSets[ch][n]
+			w.St.Check("C08:in-step")
+			w.St.Probe("signer-set-pruned")
+			done := false
+			if ch == "minter" {
+				done = w.Minter == nil || w.Minter.Nonce >= s.Sequence
+			} else if e := w.Eth[ch]; e != nil {
+				done = e.ValsetNonce >= n
+			} else {
+				done = true
+			}
+			if !done {
+				w.Fail("C08", "in-step", ch+":pending-set-withdrawn", fmt.Sprintf("%s: the hub dropped signer set %d (sequence %d) in BeginBlock of height %d although the external chain has not executed it or a later one", ch, n, s.Sequence, t.Cur.Height))
+				return
+			}
+		}
+	}
+}
+
+func (o *C08) AfterBegin(w *World) { o.seqCheck(w); o.usableSets(w); o.pendingSetsKept(w) }
 
 // AfterEnd: an execution the external chain reports must find the batch the hub was waiting for — otherwise
 // hub and contract have drifted apart on what is still owed.
